@@ -74,6 +74,7 @@ def concrete_run(contract, registry, kwargs, case=None):
     eng = V.VEngine(registry, contract.func + "[concrete]", c2)
     eng.ghost_hooks = contract.ghosts
     eng.concrete_fallback = True
+    eng.to_py, eng.lift_py = to_py, lift_py
     eng.stop_after = (getattr(case, "stop_after", None) if case is not None else None) or contract.stop_after
     import ast as _ast
 
@@ -217,6 +218,8 @@ def eval_clause_py(contract, clause_text, kwargs, result, ghosts, real=None):
 
 
 def same_value(a, b):
+    if isinstance(a, dict) and isinstance(b, dict):  # OrderedDict vs dict: same items in the same order
+        return list(a) == list(b) and all(same_value(a[k], b[k]) for k in a)
     if type(a) is not type(b):
         return False
     if isinstance(a, (tuple, list)):
